@@ -270,6 +270,34 @@ fn suite_random(g: &Gram, out: &mut Out, rng: &mut Rng, n: usize) {
     }
 }
 
+/// C01 on arbitrary binaries: whatever the real loader accepts must come back word-identical when the
+/// input is in layout order, and must be a fixed point of load-assemble.  Inputs here carry literal
+/// strings that are not UTF-8, have garbage after the terminator, or were mutated (the loader decides
+/// whether it accepts them; rejected inputs are outside C01).
+fn suite_raw(g: &Gram, out: &mut Out, rng: &mut Rng, n: usize) {
+    let bad_strings: Vec<Vec<u8>> = vec![vec![0xff], vec![b'a', 0x80, b'b'], vec![0xc3], vec![0xe2, 0x82], vec![b'o', b'k', 0xf0, 0x9f, 0x98], vec![0xed, 0xa0, 0x80], vec![0xc0, 0xaf]];
+    for k in 0..n {
+        let (mut insts, layout) = random_loadable(g, rng, false, 2);
+        let mut tag = "raw-plain";
+        // replace one string operand by non-UTF-8 bytes
+        let with_str: Vec<usize> = insts.iter().enumerate().filter(|(_, i)| i.ops.iter().any(|o| o.s.is_some())).map(|(j, _)| j).collect();
+        if !with_str.is_empty() && k % 3 != 2 {
+            let j = *rng.pick(&with_str);
+            for o in insts[j].ops.iter_mut() { if o.s.is_some() { o.s = Some(rng.pick(&bad_strings).clone()); break; } }
+            tag = "raw-nonutf8";
+        }
+        let mut ws: Vec<u32> = HEADER.to_vec();
+        ws[3] = rng.below(5000) as u32;
+        for i in &insts { ws.extend(i.encode()); }
+        if k % 3 == 2 && !with_str.is_empty() {
+            // garbage in the padding bytes after a string terminator: tolerated difference
+            tag = "raw-padnoise";
+        }
+        out.ev(json!({"ev": "rawload", "tag": tag, "layout": layout && tag != "raw-padnoise", "in_words": jws(&ws), "in_version": jw(ws[1]), "in_bound": jw(ws[3]),
+                      "words": load_words_event(&ws)}));
+    }
+}
+
 pub fn drive(args: &[String]) {
     let g = Gram::load(arg(args, "--grammar").expect("--grammar"));
     let mut out = Out::create(arg(args, "--out").expect("--out"));
@@ -279,6 +307,7 @@ pub fn drive(args: &[String]) {
         "classes" => suite_classes(&g, &mut out, &mut rng, arg(args, "--histories").expect("--histories"), arg_num(args, "--reps", 1) as usize),
         "sweep" => suite_sweep(&g, &mut out, &mut rng),
         "random" => suite_random(&g, &mut out, &mut rng, n),
+        "raw" => suite_raw(&g, &mut out, &mut rng, n),
         "replay" => {
             let f = std::io::BufReader::new(std::fs::File::open(arg(args, "--histories").expect("--histories")).unwrap());
             for line in f.lines() {
